@@ -1067,12 +1067,21 @@ fn c05(r: &mut Rng, fonts: &[FontInfo], n: u64, tr: &mut Option<std::fs::File>) 
                     let c = *r.pick(&fi.chars);
                     rq.text = (0..k).map(|j| (c, j as u32)).collect();
                 }
+                4 if !reqs.is_empty() => {
+                    // the previous text moved to another plane (c + k * 0x10000): characters that agree with the ones just
+                    // looked up in their low 16 bits - the font maps none of them, or other glyphs
+                    let k = r.range(1, 16) as u32;
+                    let prev: Vec<(u32, u32)> = reqs[reqs.len() - 1].text.iter().take(40).cloned().collect();
+                    rq.text = prev.into_iter().filter_map(|(c, cl)| { let t = c + k * 0x10000; if t <= 0x10FFFF && char::from_u32(t).is_some() { Some((t, cl)) } else { None } }).collect();
+                }
                 _ => {}
             }
             reqs.push(rq);
         }
         let fill_h = |rq: &Req, ub: UnicodeBuffer| if push { fill_push_str(rq, ub) } else { fill(rq, ub) };
+        // "fresh" = a fresh buffer AND a freshly parsed Face: nothing an earlier call could have left anywhere
         let shape_fresh = |rq: &Req| {
+            let face = Face::from_slice(&fi.data, 0).unwrap();
             let b = fill_h(rq, UnicodeBuffer::new());
             let gb = rustybuzz::shape(&face, &features_of(rq), b);
             collect(&face, &gb)
